@@ -12,7 +12,9 @@ spec/Addr.tla   BIP173 / BIP350 / BIP141 address rules, fully executable in TLC 
   2. G->R: every case TLC generates (AddrGen) with the model's verdict / script / canonical string is replayed
      on btc.NewAddrFromString + OutScript + String, btc.NewAddrFromPkScript, bech32.Decode / Encode /
      SegwitDecode / SegwitEncode, btc.Encodeb58 / Decodeb58, and - built per class by the driver with
-     crypto/sha256 and its own Base58 codec - Base58Check addresses and WIF keys (btc.DecodePrivateAddr).
+     crypto/sha256 and its own Base58 codec - Base58Check addresses and WIF keys (btc.DecodePrivateAddr):
+     damaged classes, thousands of random well-formed strings per layout, and CONSTRUCTED well-formed strings whose
+     checksum / key / hash bytes take the values a length-blind parser would misread as a flag or version byte.
   3. binding self-test: corrupted predictions must be rejected by the driver.
 There is no R->V step: the functions are pure, a recorded run would be the same comparison with roles swapped.
 """
@@ -75,8 +77,8 @@ def defs(ctx, lo, hi, alt, nsample, shortlen, tables, bug="none", invs=None):
     return d
 
 
-def replay(ctx, binp, path, ninst, workers=16):
-    p = ctx.run([binp, "replay", "-in", path, "-salt", str(ctx.seed), "-inst", str(ninst), "-workers", str(workers)], timeout=3000)
+def replay(ctx, binp, path, ninst, workers=16, vol=0):
+    p = ctx.run([binp, "replay", "-in", path, "-salt", str(ctx.seed), "-inst", str(ninst), "-vol", str(vol), "-workers", str(workers)], timeout=3000)
     if p.returncode != 0:
         raise Infra("replay driver failed: " + p.stderr[-2000:])
     fails, summ = [], None
@@ -95,7 +97,7 @@ def replay(ctx, binp, path, ninst, workers=16):
     return summ, fails
 
 
-def export_lane(binp, tag, d, timeout, ninst, keep=False):
+def export_lane(binp, tag, d, timeout, ninst, keep=False, vol=0):
     """One lane: TLC exports the cases of a slice of the model (1 worker), the driver replays them at once."""
     def job(c2):
         r = c2.tlc("AddrGen", "Addr_gen", workers=1, defines=d, timeout=timeout)
@@ -111,7 +113,7 @@ def export_lane(binp, tag, d, timeout, ninst, keep=False):
         if n != r.generated - 1:
             raise Infra("export %s: %d lines for %s generated states" % (tag, n, r.generated))
         os.remove(r.outpath)
-        summ, fails = replay(c2, binp, path, ninst, workers=4)
+        summ, fails = replay(c2, binp, path, ninst, workers=4, vol=vol)
         if not keep:
             os.remove(path)
         return tag, path, r.distinct, r.generated, summ, fails
@@ -150,8 +152,9 @@ def run(ctx):
     alt = "class" if quick else "all"
     per = 10 if quick else 8
     ninst = 2 if quick else 6
+    vol = 2000 if quick else 20000   # random well-formed Base58Check / WIF strings per accepted class
     jobs = [export_lane(binp, "tabraw", defs(ctx, 1, 0, alt, nsample, shortlen, "2"), 3000, ninst),
-            export_lane(binp, "tables", defs(ctx, 1, 0, alt, nsample, shortlen, "1,3,4,5,6,7"), 3000, ninst)]
+            export_lane(binp, "tables", defs(ctx, 1, 0, alt, nsample, shortlen, "1,3,4,5,6,7"), 3000, ninst, vol=vol)]
     for lo in range(1, nseeds + 1, per):
         jobs.append(export_lane(binp, "s%d" % lo, defs(ctx, lo, min(nseeds, lo + per - 1), alt, nsample, shortlen, ""), 3000, ninst, keep=(lo == 1)))
     total = {"lines": 0, "cases": 0, "checks": 0, "accepted": 0, "refused": 0}
@@ -170,7 +173,7 @@ def run(ctx):
         obs_examples += summ.get("observation_examples") or []
         nfail += summ["fail"]
         for f in fails:
-            ctx.violation(f["sig"], {"line": f["line"], "inst": f["inst"], "ninst": ninst, "salt": ctx.seed}, f["what"])
+            ctx.violation(f["sig"], {"line": f["line"], "inst": f["inst"], "ninst": ninst, "vol": vol, "salt": ctx.seed}, f["what"])
         if tag == "s1":
             first = path
             with open(path) as fh:
@@ -245,7 +248,7 @@ def replay_cmd(ctx, path):
     binp = ctx.build("addr")
     p = os.path.join(ctx.scratch, "one.json")
     open(p, "w").write(json.dumps(rp["line"]) + "\n")
-    summ, fails = replay(ctx, binp, p, rp.get("ninst", 1), workers=1)
+    summ, fails = replay(ctx, binp, p, rp.get("ninst", 1), workers=1, vol=rp.get("vol", 0))
     hit = [f for f in fails if f["sig"] == j["signature"]]
     for f in hit:
         print("reproduced:", f["what"])
